@@ -300,7 +300,8 @@ pub fn get_best_move(
                 if best_move.is_none() {
                     #[cfg(walleye_verif)]
                     crate::verif::on_send(&moves[0], true);
-                    tx.send(moves[0].clone()).unwrap();
+                    // the receiver may already be gone, in which case nobody waits for this move
+                    let _ = tx.send(moves[0].clone());
                 }
                 return;
             }
@@ -327,7 +328,10 @@ pub fn get_best_move(
                 best_move = Some(mov.clone());
                 #[cfg(walleye_verif)]
                 crate::verif::on_send(mov, false);
-                tx.send(mov.clone()).unwrap();
+                if tx.send(mov.clone()).is_err() {
+                    // the receiver is gone: the time ran out and a move has been played, stop searching
+                    return;
+                }
                 search_info.set_principle_variation();
                 send_search_info(&search_info, cur_depth, evaluation, start);
             }
